@@ -527,7 +527,23 @@ fn replay_keys(prog: &Value, idx: usize) -> Vec<Value> {
                 let pw = password(st[1].as_str().unwrap(), si);
                 rec["pw"] = json!(st[1]);
                 rec["pwlen"] = json!(pw.len());
-                match scn::guard(|| new_repo()?.open(&Credentials::password(pw.clone()))) {
+                // every second open takes the password from a password file (one line, as the CLI passes it)
+                let via_file = si % 2 == 1 && !pw.contains(['\n', '\r']);
+                rec["via_file"] = json!(via_file);
+                let creds = if via_file {
+                    let dir = tempfile::tempdir().unwrap();
+                    let f = dir.path().join("pw");
+                    std::fs::write(&f, format!("{pw}\n")).unwrap();
+                    let mut o = rustic_core::CredentialOptions::default();
+                    o.password_file = Some(f);
+                    match o.credentials() {
+                        Ok(Some(c)) => c,
+                        _ => Credentials::password(pw.clone()),
+                    }
+                } else {
+                    Credentials::password(pw.clone())
+                };
+                match scn::guard(|| new_repo()?.open(&creds)) {
                     Outcome::Ok(r) => {
                         rec["kid"] = json!(r.key_id().and_then(|k| ids.get(&k).copied()).unwrap_or(0));
                         // the session must really work: the master key it holds is the repository's
